@@ -8,12 +8,14 @@ Oracle (implementation only, from the property text): after the first StopIterat
 StopIteration again; the helpers return what repeated next() on a fresh instance returns from the same position;
 a copy continues from the position of the original, and advancing one handle never moves another."""
 from pat_common import *
+import re
+from fractions import Fraction
 
 PROP = "C09"
 META = {
  "engine": "P-pattern-algebra",
- "text": "Coq theorems (Props/C09.v, closed under the global context) prove on the executable model of the pattern classes (Pat/Step.v, transcribed from core.py / sequence.py / scalar.py): once a pattern of the sticky fragment (constants, sequences, series, ranges, geometric series, operators, abs/int, references, stutter, pad, pad-to-multiple, loop, reverse, ping-pong, skip-if, changed/diff, index-of ... with scalar terminating parameters, nested to any depth) has raised StopIteration, no later next() yields a value (an invariant closed under step, by induction on the nesting); nextn(n) is the list of the first min(n, remaining) results of repeated next and leaves the object where those calls leave it, all(m) likewise followed by reset(), len is the length of all(); copy() is the identity on the tree model, so a copy continues with exactly the outputs of the original. The model is tied to the repository on every run by scripts interleaving next/nextn/all/len/for/copy on up to four handles, compared inside Coq; an implementation-only oracle checks stickiness, helper results against repeated next() of a fresh instance, and independence of copies.",
- "note": "Trusted: Coq kernel + VM; the harness; copy.deepcopy separating the object graph (independence of copies is true by construction in the tree model; it is the correspondence with interleavings that validates it against the implementation). Revival by design is excluded from the stickiness oracle and theorems: PReset (re-arms its input), terminating parameters given as varying patterns (re-read at every step, C12), PArrayIndex over a list containing patterns. Classes outside the model (PPermut, PArpeggiator, stochastic, PFade*) are judged by the oracle only.",
+ "text": "Coq theorems (Props/C09.v, closed under the global context) prove on the executable model of the pattern classes (Pat/Step.v, transcribed from core.py / sequence.py / scalar.py): once a pattern of the sticky fragment (constants, sequences, series, ranges, geometric series, operators, abs/int, references, stutter, pad, pad-to-multiple, loop, reverse, ping-pong, skip-if, changed/diff, index-of ... with scalar terminating parameters, nested to any depth) has raised StopIteration, no later next() yields a value (an invariant closed under step, by induction on the nesting); nextn(n) is the list of the first min(n, remaining) results of repeated next and leaves the object where those calls leave it, all(m) likewise followed by reset(), len is the length of all(); copy() is the identity on the tree model, so a copy continues with exactly the outputs of the original. The model is tied to the repository on every run by scripts interleaving next/nextn/all/len/for/copy on up to four handles, compared inside Coq; an implementation-only oracle checks stickiness, helper results against repeated next() of a fresh instance, and independence of copies. For 'a drained track stays drained' Pat/Drained.v models Timeline.tick/Track.tick for a note track over any stream (in particular the stochastic machines of Pat/Chance.v, generator as data): once the stream is dead the re-polling track plays nothing more and finishes when its last note-off is due (C09_drained_track_stays_drained); PShuffle and PWhite are sticky in any state for any generator (C09_pshuffle_sticky, C09_pwhite_sticky); tied to the code by comparing, inside Coq, ticks-until-removal and notes of real tracks with gate > 1 and the StopIteration shape of PShuffle/PWhite. A library stream (oracle only) runs every Pattern subclass of isobar.pattern (list read from the live package, fail closed; seeded stochastic classes, nestings over them) through >= 6 polls after the first StopIteration, helper/copy scripts around and after the end, and a Track whose last note outlasts the stream.",
+ "note": "Trusted: Coq kernel + VM; the harness; copy.deepcopy separating the object graph (independence of copies is true by construction in the tree model; it is the correspondence with interleavings that validates it against the implementation). Revival by design is excluded from the stickiness oracle and theorems: PReset (re-arms its input), terminating parameters given as varying patterns (re-read at every step, C12), PArrayIndex over a list containing patterns. Classes outside the model (PPermut, PArpeggiator, stochastic, PFade*, tonal, PMap* ...) are judged by the oracle only (library stream); classes drawing from the process-wide random module (PExplorer, PFadeNotewiseRandom, PLSystem '?') for stickiness and track end only; PStaticPattern, PW*, PLFO, PMIDIControl, PMonomeArcControl are excluded (need a running timeline / hardware). The drained-track model covers constant duration and gate on the quarter-tick grid. Known findings: PFadeNotewise/PFadeNotewiseRandom revive, PPatternGeneratorAction raises TypeError after its StopIteration.",
 }
 
 REFN = 40          # calls of next() recorded for the reference run
@@ -155,6 +157,444 @@ def sub_patterns(x):
     return out
 
 
+# ==========================================================================================================
+# Library stream: every Pattern subclass of isobar.pattern, written as Python source (oracle only; the
+# stochastic classes are modelled under C11 in coq/Pat/Chance.v, the counters of PShuffle also in Pat/Drained.v).
+# The list of classes is read from the live package on every run; a class that has neither recipes, nor the
+# engine-P generators, nor an exclusion reason below fails the run (fail closed).
+# ==========================================================================================================
+LIB_REFN = 48      # calls of next() in a reference run of the library stream
+LIB_DRAIN = 34     # nextn(LIB_DRAIN) drains every finite recipe (they are built to give <= 30 values)
+ARP_TYPES = ["UP", "DOWN", "CONVERGE", "DIVERGE", "RANDOM", "UPDOWN", "DOWNUP", "BUILD", "BREAK", "ROOTBOUNCE"]
+HELPERS_SOURCE = None   # filled from the driver's own source (printed in replay snippets)
+
+
+def _ints(rng, lo=0, hi=6, vlo=40, vhi=90):
+    return [rng.randint(vlo, vhi) for _ in range(rng.randint(lo, hi))]
+
+
+def _sd(rng):
+    return ".seed(%d)" % rng.randint(0, 9999)
+
+
+def _seq(rng, lo=0, hi=6, rep=None):
+    return "iso.PSequence(%r, %d)" % (_ints(rng, lo, hi), rep if rep is not None else rng.choice([1, 1, 1, 2]))
+
+
+def _shuffle(rng, lo=0, hi=5):
+    return "iso.PShuffle(%r, %d)%s" % (_ints(rng, lo, hi), rng.choice([0, 1, 1, 2, 2, 3]), _sd(rng))
+
+
+def _white(rng):
+    a = rng.randint(0, 60)
+    return "iso.PWhite(%d, %d, %d)%s" % (a, a + rng.randint(1, 60), rng.randint(1, 6), _sd(rng))
+
+
+def _skip(rng):
+    return "iso.PSkip(%s, %r, %r)%s" % (_seq(rng, 0, 6, 1), rng.choice([0, 0.3, 0.5, 0.8, 1]), rng.random() < 0.4, _sd(rng))
+
+
+def _arp(rng, loop=False):
+    t = rng.choice(ARP_TYPES)
+    return "iso.PArpeggiator(%r, iso.PArpeggiator.%s, %r)%s" % (
+        sorted(set(_ints(rng, 0 if t in ARP_TYPES[:7] else 3, 5))), t, loop, _sd(rng))
+
+
+def _markov_abs(rng):
+    n = rng.randint(1, 4)                     # chain 0 -> 1 -> ... -> n (absorbing: no successors), with detours
+    d = {i: sorted(set([i + 1] + [rng.randint(i + 1, n) for _ in range(rng.randint(0, 2))])) for i in range(n)}
+    d[n] = []
+    return "iso.PMarkov(%r)%s" % (d, _sd(rng))
+
+
+def _fin_input(rng):
+    """a finite input pattern: deterministic or seeded stochastic"""
+    return rng.choice([_seq, _seq, _shuffle, _white, _skip, _arp, _markov_abs])(rng)
+
+
+def _key(rng):
+    return 'iso.Key(%r, %r)' % (rng.choice(["C", "D", "F#", "A"]), rng.choice(["major", "minor", "dorian"]))
+
+
+LSYS_RULES = ["N+N", "N[+N]-N", "N[-N++N]-N", "N+[N-N]", "N-N+N", "[N]+N"]
+# class -> list of (finite?, rng -> source).  `finite` = built to raise StopIteration within 30 values.
+LIB_RECIPES = {
+    "PShuffle": [(True, _shuffle), (True, lambda r: _shuffle(r, 1, 3)), (False, lambda r: "iso.PShuffle(%r)%s" % (_ints(r, 1, 4), _sd(r)))],
+    "PWhite": [(True, _white), (True, lambda r: "iso.PWhite(0.0, 1.0, %d)%s" % (r.randint(1, 5), _sd(r))),
+               (False, lambda r: "iso.PWhite(0, 100)%s" % _sd(r))],
+    "PSkip": [(True, _skip)],
+    "PShuffleInput": [(True, lambda r: "iso.PShuffleInput(%s, %d)%s" % (_seq(r, 0, 8, 1), r.randint(1, 4), _sd(r)))],
+    "PSwitchOne": [(False, lambda r: "iso.PSwitchOne(%s, %d)%s" % (_seq(r, 4, 8, 1), r.randint(2, 4), _sd(r)))],
+    "PRandomImpulseSequence": [(False, lambda r: "iso.PRandomImpulseSequence(%r, %d)%s" % (r.choice([0.2, 0.5, 0.9]), r.randint(1, 6), _sd(r)))],
+    "PMarkov": [(True, _markov_abs), (False, lambda r: "iso.PMarkov(%r)%s" % (_ints(r, 3, 6, 1, 4) + [1], _sd(r)))],
+    "PSample": [(False, lambda r: "iso.PSample([1, 2, 3, 4], %d)%s" % (r.randint(1, 3), _sd(r)))],
+    "PChoice": [(False, lambda r: "iso.PChoice(%r)%s" % (_ints(r, 1, 4), _sd(r)))],
+    "PBrown": [(False, lambda r: "iso.PBrown(%d, %d, 30, 90)%s" % (r.randint(40, 80), r.randint(1, 4), _sd(r)))],
+    "PCoin": [(False, lambda r: "iso.PCoin(%r)%s" % (r.choice([0.2, 0.5, 0.8]), _sd(r)))],
+    "PRandomWalk": [(False, lambda r: "iso.PRandomWalk(%r, 1, %d)%s" % (_ints(r, 2, 5), r.randint(1, 2), _sd(r)))],
+    "PFlipFlop": [(False, lambda r: "iso.PFlipFlop(%d, %r, %r)%s" % (r.randint(0, 1), r.choice([0.2, 0.5]), r.choice([0.5, 0.9]), _sd(r)))],
+    "PRandomExponential": [(False, lambda r: "iso.PRandomExponential(1, %d)%s" % (r.randint(5, 100), _sd(r)))],
+    "PArpeggiator": [(True, _arp), (False, lambda r: _arp(r, True))],
+    "PPermut": [(True, lambda r: "iso.PPermut(%s, %d)" % (_seq(r, 0, 3, 1), r.randint(1, 4))),
+                (True, lambda r: "iso.PPermut(%s, %d)" % (_shuffle(r, 0, 3), r.randint(1, 3)))],
+    "PCreep": [(True, lambda r: "iso.PCreep(%s, %d, %d, %d)" % (_seq(r, 0, 6, 1), r.randint(1, 3), r.randint(1, 2), r.randint(1, 2))),
+               (True, lambda r: "iso.PCreep(%s, %d, %d, %d)" % (_shuffle(r, 1, 4), r.randint(1, 3), 1, r.randint(1, 2)))],
+    "PInterpolate": [(True, lambda r: "iso.PInterpolate(%s, %d, iso.%s)" % (
+        _fin_input(r), r.randint(1, 3), r.choice(["INTERPOLATION_LINEAR", "INTERPOLATION_COSINE", "INTERPOLATION_NONE"])))],
+    "PLSystem": [(True, lambda r: "iso.PLSystem(%r, %d, False)" % (r.choice(LSYS_RULES), r.randint(1, 2))),
+                 (True, lambda r: "iso.PLSystem(%r, %d, False)" % (r.choice(LSYS_RULES).replace("+N", "+?N", 1), r.randint(1, 2))),
+                 (False, lambda r: "iso.PLSystem(%r, %d, True)" % (r.choice(LSYS_RULES), r.randint(1, 2)))],
+    "PSequenceAction": [(True, lambda r: "iso.PSequenceAction(%r, rot, %d)" % (_ints(r, 0, 4), r.randint(0, 3)))],
+    "PPatternGeneratorAction": [(True, lambda r: "iso.PPatternGeneratorAction(Batches(%d, %r))" % (r.randint(1, 3), _ints(r, 1, 3)))],
+    "PFadeNotewise": [(True, lambda r: "iso.PFadeNotewise(%s, 1, 1, %d, 1)" % (_seq(r, 1, 3, 1), r.randint(1, 2)))],
+    "PFadeNotewiseRandom": [(True, lambda r: "iso.PFadeNotewiseRandom(%s, 1, %d, 1, 1)" % (_seq(r, 1, 3, 1), r.randint(1, 2)))],
+    "PExplorer": [(True, lambda r: "iso.PExplorer(%r, %d)" % (r.choice([0.3, 0.5, 0.9]), r.randint(1, 5)))],
+    "PNormalise": [(True, lambda r: "iso.PNormalise(%s)" % _fin_input(r))],
+    "PMap": [(True, lambda r: "iso.PMap(%s, dbl)" % _fin_input(r))],
+    "PMapEnumerated": [(True, lambda r: "iso.PMapEnumerated(%s, enum_sum)" % _fin_input(r))],
+    "PScaleLinLin": [(True, lambda r: "iso.PScaleLinLin(%s, 0, 127, 0, 1)" % _fin_input(r))],
+    "PScaleLinExp": [(True, lambda r: "iso.PScaleLinExp(%s, 1, 127, 1, 1000)" % _seq(r, 0, 5, 1))],
+    "PScalar": [(True, lambda r: "iso.PScalar(iso.PSequence([(1, 3), 2, (2, 4)][:%d], 1), %r)" % (r.randint(0, 3), r.choice(["mean", "first"])))],
+    "PDegree": [(True, lambda r: "iso.PDegree(%s, iso.Scale.%s)" % ("iso.PSequence(%r, 1)" % _ints(r, 0, 5, -3, 9), r.choice(["major", "minor"])))],
+    "PFilterByKey": [(True, lambda r: "iso.PFilterByKey(%s, %s)" % (_fin_input(r), _key(r)))],
+    "PNearestNoteInKey": [(True, lambda r: "iso.PNearestNoteInKey(%s, %s)" % (_fin_input(r), _key(r)))],
+    "PMidiNoteToFrequency": [(True, lambda r: "iso.PMidiNoteToFrequency(%s)" % _fin_input(r))],
+    "PMidiSemitonesToFrequencyRatio": [(True, lambda r: "iso.PMidiSemitonesToFrequencyRatio(%s)" % _fin_input(r))],
+    "PKeyTonic": [(True, lambda r: "iso.PKeyTonic(iso.PSequence([%s], 1))" % ", ".join(_key(r) for _ in range(r.randint(0, 3))))],
+    "PKeyScale": [(True, lambda r: "iso.PKeyScale(iso.PSequence([%s], 1))" % ", ".join(_key(r) for _ in range(r.randint(0, 3))))],
+    "PDict": [(True, lambda r: "iso.PDict({'a': %s, 'b': %s})" % (_fin_input(r), _fin_input(r)))],
+    "PEuclidean": [(False, lambda r: "iso.PEuclidean(%d, %d, %d)" % (r.randint(3, 8), r.randint(1, 3), r.randint(0, 2)))],
+    "PMetropolis": [(False, lambda r: "iso.PMetropolis(%r, [2, 1], [1, 0])" % _ints(r, 1, 3))],
+    "PTri": [(False, lambda r: "iso.PTri(%d, 0, 12)" % r.randint(2, 8))],
+    "PSaw": [(False, lambda r: "iso.PSaw(%d, 0, 12)" % r.randint(2, 8))],
+    "PCurrentTime": [(False, lambda r: "iso.PCurrentTime()")],
+    "PGlobals": [(False, lambda r: "iso.PGlobals('c09_unset', %d)" % r.randint(0, 9))],
+    "PFunc": [(False, lambda r: "iso.PFunc(lambda: %d)" % r.randint(0, 9))],
+    # bases whose inherited __next__ ends at once
+    "PStochasticPattern": [(True, lambda r: "iso.PStochasticPattern()")],
+    "PWarp": [(True, lambda r: "iso.PWarp()")],
+    "PFade": [(True, lambda r: "iso.PFade()")],
+    "PBinOp": [(True, lambda r: "iso.PBinOp(%s, 2)" % _seq(r))],
+    # nestings: the combinators of engine P over seeded stochastic / library inputs
+    "PLoop": [(True, lambda r: "iso.PLoop(%s, %d)" % (_fin_input(r), r.randint(1, 2)))],
+    "PStutter": [(True, lambda r: "iso.PStutter(%s, %d)" % (_fin_input(r), r.randint(1, 3)))],
+    "PPingPong": [(True, lambda r: "iso.PPingPong(%s, %d)" % (_fin_input(r), r.randint(1, 2)))],
+    "PReverse": [(True, lambda r: "iso.PReverse(%s)" % _fin_input(r))],
+    "PSubsequence": [(True, lambda r: "iso.PSubsequence(%s, %d, %d)" % (_fin_input(r), r.randint(0, 2), r.randint(1, 3)))],
+    "PConcatenate": [(True, lambda r: "iso.PConcatenate([%s, %s])" % (_fin_input(r), _fin_input(r)))],
+    "PPad": [(True, lambda r: "iso.PPad(%s, %d)" % (_fin_input(r), r.randint(0, 8)))],
+    "PAdd": [(True, lambda r: "(%s + %d)" % (_fin_input(r), r.randint(0, 12))), (True, lambda r: "(%s + %s)" % (_fin_input(r), _fin_input(r)))],
+    "PSequence": [(True, lambda r: "iso.PSequence([%s, %d, %s], %d)" % (_fin_input(r), r.randint(40, 90), _fin_input(r), r.randint(1, 2)))],
+}
+# classes that cannot be given small finite arguments outside their environment: excluded, with the reason
+LIB_EXCLUDED = {
+    "PStaticPattern": "reads the clock of a running Timeline (raises outside one); its output is a function of time, not of the number of next() calls",
+    "PWInterpolate": "time-warp pattern: needs the Timeline it is attached to (AttributeError outside one); infinite",
+    "PWSine": "time-warp pattern: needs the Timeline it is attached to; infinite",
+    "PWRallantando": "time-warp pattern: needs the Timeline it is attached to; infinite",
+    "PLFO": "needs a signalflow LFO object; infinite",
+    "PMIDIControl": "opens a MIDI input port in its constructor; infinite",
+    "PMonomeArcControl": "needs monome hardware; infinite",
+}
+# draw from the process-wide `random` module, which seed() does not reach: two fresh instances differ, so only
+# stickiness and the end of the track are judged (never values)
+LIB_UNSEEDED = {"PExplorer", "PFadeNotewiseRandom"}
+TRACK_GATES = [(3, 2), (5, 2), (2, 1), (4, 1), (7, 1), (21, 4)]
+TRACK_DURS = [(1, 1), (1, 2), (1, 4), (2, 1)]
+
+
+def lib_script(rng, finite):
+    """helpers / copies at random positions, or around and after the end of a finite pattern"""
+    if finite and rng.random() < 0.5:
+        ops = [("next", 0)] * rng.randint(0, 3)
+        if rng.random() < 0.4:
+            ops.append(("copy", 0))
+        ops.append((rng.choice(["nextn", "for"]), 0, LIB_DRAIN))
+        h = 1 if len(ops) > 1 and ops[-2][0] == "copy" and rng.random() < 0.5 else 0
+        for _ in range(rng.randint(2, 5)):                       # the object is drained: poll it again
+            k = rng.random()
+            ops.append(("next", 0) if k < 0.4 else ("nextn", 0, rng.randint(1, 4)) if k < 0.7 else ("for", 0, rng.randint(1, 3)))
+        if h:
+            ops.append(("nextn", 1, rng.randint(0, 5)))
+        ops.append(rng.choice([("len", 0), ("all", 0, None), ("all", 0, rng.randint(0, 6))]))
+        return ops
+    return gen_script(rng, finite)
+
+
+def lib_values(ref):
+    """(index of the first StopIteration, values before it) of a reference run, None if there is none / an exception first"""
+    vals = []
+    for i, o in enumerate(ref[1:]):
+        if o == "stop":
+            return i, vals
+        if not isinstance(o, dict) or "y" not in o:
+            return None
+        vals.append(o["y"])
+    return None
+
+
+def lib_snippet(src, ops=None, track=None):
+    lines = ["import isobar as iso"] + (HELPERS_SOURCE or "").strip("\n").split("\n")
+    if track is not None:
+        lines += ["class Rec(iso.OutputDevice):", "    ons = []", "    def note_on(self, note=60, velocity=64, channel=0): self.ons.append(note)",
+                  "    def note_off(self, note=60, channel=0): pass",
+                  "tl = iso.Timeline(120, output_device=Rec(), clock_source=iso.DummyClock(ticks_per_beat=%d))" % track["tpb"],
+                  "tl.schedule({'note': %s, 'duration': %d / %d, 'gate': %d / %d})" % ((src,) + tuple(track["dur"]) + tuple(track["gate"])),
+                  "for _ in range(400):", "    if not tl.tracks: break", "    tl.tick()",
+                  "print(Rec.ons, 'ended' if not tl.tracks else 'STILL RUNNING')", "print(%s.nextn(%d))" % (src, LIB_REFN)]
+        return "\n".join(lines)
+    lines.append("p0 = %s" % src)
+    n = 1
+    for op in ops:
+        if op[0] == "copy":
+            lines.append("p%d = %s" % (n, op_source(op))); n += 1
+        else:
+            lines.append("print(%s)" % op_source(op))
+    return "\n".join(lines)
+
+
+def lib_reproducible(case, out):
+    """two fresh instances of this source give the same outcomes (otherwise neither values nor their number are judged)"""
+    return out.get("ref") == out.get("ref2") and case["cls"] not in LIB_UNSEEDED and "?" not in case["src"]
+
+
+def lib_judge(case, out):
+    """the oracle of the library stream.  Returns (violations, notes): violations = [(signature, replay doc)],
+    notes = what could (not) be judged.  `case` = {cls, src, finite, script, track}."""
+    bad, notes = [], []
+    src, cls = case["src"], case["cls"]
+    if out.get("status"):
+        return bad, ["impl-" + out["status"]]
+    ref, ref2 = out["ref"], out["ref2"]
+    if len(ref) == 1:
+        return bad, ["constructor raised"]
+    pretty = [pretty_obs(o) for o in ref]
+    # 1. stickiness (both fresh instances)
+    for r in (ref, ref2):
+        d = judge_sticky(r)
+        if d is not None:
+            bad.append(({"kind": "sticky", "class": cls, "after": "raise" if d["observed"].startswith("raise") else "value", "stream": "library"}, {
+                "case": {"src": src, "ops": [["next", 0]] * (d["index"] + 1)},
+                "expected": "StopIteration on every next() after call %d (the first StopIteration)" % d["first_stop"],
+                "observed": "call %d: %s" % (d["index"], d["observed"]), "observed_outputs": [pretty_obs(o) for o in r],
+                "python": lib_snippet(src, [("next", 0)] * (d["index"] + 1))}))
+            break
+    fs = lib_values(ref)
+    if fs is None:
+        notes.append("no StopIteration within %d calls" % LIB_REFN if all(o != "stop" for o in ref[1:]) else "raises before it ends")
+    elif LIB_REFN - fs[0] - 1 >= AFTER and fs[0] > 0:
+        notes.append("nontrivial-sticky")
+    reproducible = lib_reproducible(case, out)
+    if not reproducible:
+        notes.append("not reproducible (draws from a generator that seed() does not reach): values not judged")
+    # 2. helpers and copies against repeated next() of a fresh instance
+    if case.get("script") is not None and reproducible and "script" in out and len(out["script"]) > 1:
+        ops = [tuple(o) for o in case["script"]]
+        try:
+            want = simulate(ref[1:], ops, None)
+            got = out["script"][1:]
+            notes.append("script-judged")
+            for i, w in enumerate(want):
+                if i >= len(got) or canon_obs(got[i]) != canon_obs(w):
+                    kind = "copy" if any(o[0] == "copy" for o in ops[:i + 1]) and ops[i][0] == "next" else "helper"
+                    bad.append(({"kind": kind, "op": ops[i][0], "class": cls, "stream": "library"}, {
+                        "case": {"src": src, "ops": [list(o) for o in ops]},
+                        "expected": "operation %d (%s): %s  [from repeated next() on a fresh instance]" % (i, ops[i][0], canon_obs(w)),
+                        "observed": canon_obs(got[i]) if i < len(got) else "nothing",
+                        "observed_outputs": [pretty_obs(o) for o in out["script"]], "reference_next_outputs": pretty,
+                        "python": lib_snippet(src, ops[:i + 1])}))
+                    break
+        except CannotJudge as e:
+            notes.append("script: " + str(e))
+    # 3. a track whose notes outlast the stream plays the values once and ends
+    t = out.get("track")
+    if t is not None and fs is not None and judge_sticky(ref) is None:
+        n, vals = fs
+        played = t.get("pulled") if t.get("mode") == "tap" else t.get("ons")
+        if t.get("error"):
+            notes.append("track: raised " + str(t["error"]))
+        elif played is not None:
+            notes.append("track-judged")
+            doc = {"case": {"src": src, "track": case["track"]}, "reference_next_outputs": pretty,
+                   "track": {k: t[k] for k in ("mode", "ticks", "ended", "ons", "offs", "pulled")},
+                   "python": lib_snippet(src, track=case["track"])}
+            sig = None
+            if reproducible and len(played) > n:
+                sig, doc["expected"] = "track-replays", "the track takes the %d values of the stream once; every later poll (one per tick while the last note sounds) raises StopIteration" % n
+                doc["observed"] = "%d values taken by the track: %r" % (len(played), [from_json(v) for v in played][:n + 8])
+            elif reproducible and played != vals:
+                sig, doc["expected"] = "track-values", "the track plays %r (repeated next() of a fresh instance)" % [from_json(v) for v in vals]
+                doc["observed"] = "%r" % [from_json(v) for v in played]
+            elif not t["ended"]:
+                sig, doc["expected"] = "track-never-ends", "the drained track leaves Timeline.tracks once its last note has ended"
+                doc["observed"] = "still scheduled after %d ticks (%d note_on, %d note_off)" % (t["ticks"], len(t["ons"]), len(t["offs"]))
+            elif len(t["ons"]) != len(t["offs"]):
+                sig, doc["expected"], doc["observed"] = "track-note-offs", "one note_off per note_on", "%d note_on, %d note_off" % (len(t["ons"]), len(t["offs"]))
+            if sig:
+                bad.append(({"kind": sig, "class": cls, "stream": "library"}, doc))
+    return bad, notes
+
+
+def lib_classes(run):
+    """live class list -> (recipes to run, fail-closed problems)"""
+    global HELPERS_SOURCE
+    drv = open(os.path.join(os.path.dirname(os.path.abspath(__file__)), "impl", "c09_impl.py")).read()
+    q = "'" * 3
+    HELPERS_SOURCE = drv.split("HELPERS_SOURCE = " + q)[1].split(q)[0]
+    live = {c["name"]: c for c in run.impl("c09_impl", {"enumerate": True})["classes"]}
+    problems = []
+    for name, c in sorted(live.items()):
+        covered = [k for k, tab in (("recipe", LIB_RECIPES), ("engine-P", GENERATORS), ("excluded", LIB_EXCLUDED)) if name in tab]
+        if not covered:
+            problems.append((name, "class %s (%s, parameters %r) has no recipe, no engine-P generator and no exclusion reason" % (name, c["module"], c["params"])))
+        elif not c["exported"] and "excluded" not in covered:
+            problems.append((name, "class %s is no longer exported by the isobar package" % name))
+        for k in covered:
+            run.dist("libclass." + k)
+    for name in sorted(set(LIB_RECIPES) | set(LIB_EXCLUDED)):
+        if name not in live:
+            problems.append((name, "class %s named in harness/c09.py no longer exists in isobar.pattern" % name))
+    stoch = {n for n, c in live.items() if c["stochastic"]}
+    return live, stoch, problems
+
+
+def run_lib(run, cases, shards=12):
+    parts = [cases[i::shards] for i in range(shards) if cases[i::shards]]
+    payloads = [{"cases": [{"src": c["src"], "refn": LIB_REFN, "script": c.get("script"), "track": c.get("track")} for c in part]} for part in parts]
+    outs = run.impl_parallel("c09_impl", payloads)
+    res = {}
+    for part, out in zip(parts, outs):
+        for c, r in zip(part, out["cases"]):
+            res[id(c)] = r
+    return [res[id(c)] for c in cases]
+
+
+def track_cfg(rng):
+    # every duration is a whole number of ticks (a shorter one makes Track.tick skip events: not C09's business)
+    return {"tpb": rng.choice([4, 4, 8, 12]), "dur": list(rng.choice(TRACK_DURS)), "gate": list(rng.choice(TRACK_GATES))}
+
+
+def check_library(run, model_exprs):
+    """library stream + track observation over finite expressions of engine P"""
+    rng = run.rng
+    thorough = run.tier == "thorough"
+    live, stoch, problems = lib_classes(run)
+    run.cov["library_classes"] = {"live": len(live), "with_recipes": sorted(LIB_RECIPES), "excluded": LIB_EXCLUDED,
+                                  "engine_P_only": sorted(set(live) & set(GENERATORS) - set(LIB_RECIPES))}
+    for name, why in problems[:3]:
+        run.violation({"kind": "library-class-list", "class": name}, {
+            "broken": "coverage of 'all finite library patterns': " + why + " (add a recipe or an exclusion reason to harness/c09.py)",
+            "python": "import isobar as iso; print(iso.%s)" % name}, found_input=False)
+    cases = []
+    per = 60 if thorough else 6
+    for cls in sorted(LIB_RECIPES):
+        if cls not in live:
+            continue
+        for j in range(per):
+            finite, fn = LIB_RECIPES[cls][j % len(LIB_RECIPES[cls])]
+            src = fn(rng)
+            cases.append({"cls": cls, "src": src, "finite": finite, "script": [list(o) for o in lib_script(rng, finite)],
+                          "track": track_cfg(rng) if finite else None})
+    for e in model_exprs:
+        cases.append({"cls": root_cls(e), "src": to_source(e), "finite": True, "script": None, "track": track_cfg(rng), "model": True})
+    outs = run_lib(run, cases)
+    seen, found, flagged = {}, [], set()
+    for c, out in zip(cases, outs):
+        run.count(); run.dist("stream.library-track-of-model" if c.get("model") else "stream.library")
+        if not c.get("model"):
+            run.dist("lib." + c["cls"])
+        bad, notes = lib_judge(c, out)
+        for nt in notes:
+            if nt in ("nontrivial-sticky", "script-judged", "track-judged"):
+                run.dist("libjudged." + nt)
+            else:
+                run.discard("library: " + nt.split("(")[0].strip())
+        if "track-judged" in notes or "script-judged" in notes:
+            run.nontrivial("lib " + c["src"] + repr(c.get("script")) + repr(c.get("track")))
+        run.cov["oracle_evaluations"] += sum(len(out.get(k) or ()) for k in ("ref", "ref2", "script"))
+        if c.get("model") and revives_by_design(model_exprs_by_src[c["src"]]):
+            continue
+        for sig, doc in bad:
+            if sig["kind"] == "sticky" and out.get("track"):
+                doc["track_over_the_same_pattern"] = {"config": c["track"], "observed": out["track"]}
+            found.append((len(c["src"]), len(found), sig, doc))
+            flagged.add(id(c))
+    check_drained_model(run, cases, outs, {id_ for id_ in flagged})
+    # smallest source first: a nesting that fails because of its input is reported after the input itself
+    for _, _, sig, doc in sorted(found, key=lambda t: t[:2]):
+        key = json.dumps(sig, sort_keys=True)
+        if key in seen:
+            continue
+        seen[key] = 1
+        if len(seen) <= 6:
+            run.violation(sig, doc)
+
+
+DRAINED_HEADER = """From Isobar Require Import Base.Prelude Pat.Chance Pat.Drained.
+Open Scope Z_scope.
+Definition beq_shape (a b : list bool) : bool := list_eqb Bool.eqb a b.
+"""
+RE_SHUFFLE = re.compile(r"^iso\.PShuffle\(\[([0-9, ]*)\], (\d+)\)\.seed\(\d+\)$")
+RE_WHITE = re.compile(r"^iso\.PWhite\([0-9.]+, [0-9.]+, (\d+)\)\.seed\(\d+\)$")
+
+
+def track_budget(cfg, n):
+    """the tick budget the driver gives a track over a stream of n values (same formula as c09_impl.run_track)"""
+    beats = n * cfg["dur"][0] / cfg["dur"][1] + cfg["dur"][0] * cfg["gate"][0] / (cfg["dur"][1] * cfg["gate"][1])
+    return int((beats + 3) * cfg["tpb"]) + 8
+
+
+def check_drained_model(run, cases, outs, flagged):
+    """model vs implementation (Pat/Drained.v, compared inside Coq): (1) a track over a stream of n values plays n
+    notes and leaves the timeline after exactly the number of ticks the model computes; (2) the value/StopIteration
+    shape of LIB_REFN calls of next() on PShuffle(values, repeats) and PWhite(_, _, length)"""
+    terms, owner = [], []
+    for c, out in zip(cases, outs):
+        if id(c) in flagged or out.get("status") or len(out.get("ref", ())) < 2:
+            continue
+        ref = out["ref"]
+        fs = lib_values(ref)
+        t = out.get("track")
+        if t and t.get("mode") and not t.get("error") and fs is not None and judge_sticky(ref) is None and lib_reproducible(c, out):
+            cfg = c["track"]
+            played = t["pulled"] if t["mode"] == "tap" else t["ons"]
+            dur_t, gate4 = Fraction(cfg["dur"][0] * cfg["tpb"], cfg["dur"][1]), Fraction(cfg["gate"][0] * 4, cfg["gate"][1])
+            if dur_t.denominator != 1 or gate4.denominator != 1 or dur_t < 1:
+                run.discard("drained model: duration or gate off the quarter-tick grid")
+            else:
+                end = "Some k => Z.eqb k %d | None => false" % t["ticks"] if t["ended"] else "Some _ => false | None => true"
+                terms.append("(let r := drained_run %d %d %d %d in Z.eqb (fst r) %s && match snd r with %s end)" % (
+                    fs[0], dur_t, gate4, track_budget(cfg, fs[0]), zlit(len(played) if t["ended"] else -1), end))
+                owner.append((c, out, "drained_run: a track over a stream of %d values, duration %s ticks, gate %s/4: notes played and ticks until it leaves Timeline.tracks" % (fs[0], dur_t, gate4)))
+        m, w = RE_SHUFFLE.match(c["src"]), RE_WHITE.match(c["src"])
+        if (m or w) and all(o == "stop" or isinstance(o, dict) for o in ref[1:]):
+            shape = lst([blit(o == "stop") for o in ref[1:]])
+            if m:
+                vals = [int(x) for x in m.group(1).split(",") if x.strip()]
+                terms.append("beq_shape (pshuffle_shape %s %d %d) %s" % (zlist(vals), int(m.group(2)), len(ref) - 1, shape))
+            else:
+                terms.append("beq_shape (pwhite_shape %d %d) %s" % (int(w.group(1)), len(ref) - 1, shape))
+            owner.append((c, out, ("pshuffle_shape" if m else "pwhite_shape") + ": which of the first %d next() raise StopIteration" % (len(ref) - 1)))
+    bad = run.coq_failing(DRAINED_HEADER, terms)
+    run.cov["traces_validated_against_impl"] += len(terms) - len(bad)
+    run.cov["drained_model_comparisons"] = len(terms)
+    seen = set()
+    for i in bad:
+        c, out, what = owner[i]
+        rel = what.split(":")[0]
+        if rel in seen:
+            continue
+        seen.add(rel)
+        run.violation({"kind": "correspondence", "relation": rel, "class": c["cls"]}, {
+            "broken": "correspondence Pat/Drained.v vs the implementation (%s): the theorems C09_drained_track_stays_drained / C09_pshuffle_sticky / C09_pwhite_sticky of Props/C09.v no longer speak about this code" % what,
+            "case": {"src": c["src"], "track": c.get("track")}, "coq_term": terms[i],
+            "observed": {"next": [pretty_obs(o) for o in out["ref"]], "track": out.get("track")},
+            "python": lib_snippet(c["src"], track=c["track"]) if c.get("track") else lib_snippet(c["src"], [("next", 0)] * 12)}, found_input=False)
+
+
+model_exprs_by_src = {}
+
+
 def check(run):
     rng = run.rng
     thorough = run.tier == "thorough"
@@ -239,6 +679,21 @@ def check(run):
             "observed": "call %d: %s" % (d["index"], d["observed"]), "observed_outputs": small.obs_pretty(),
             "python": replay_snippet(small.expr, small.ops[:d["index"] + 1])})
 
+    # ---- library stream (every class of isobar.pattern, oracle only) + tracks over finite expressions of engine P
+    pool, have = [], set()
+    for c in sticky:
+        if c.status or not c.obs or revives_by_design(c.expr) or judge_sticky(c.obs) is not None:
+            continue
+        fs = lib_values(c.obs)
+        src = to_source(c.expr)
+        if fs is None or not (0 < fs[0] <= 30) or src in have:
+            continue
+        have.add(src); pool.append(c.expr)
+    pool = pool[:3000 if thorough else 260]
+    model_exprs_by_src.clear()
+    model_exprs_by_src.update({to_source(e): e for e in pool})
+    check_library(run, pool)
+
     # ---- helpers and copies against repeated next() on a fresh instance
     def judge_script(c):
         r = refs[to_source(c.expr)] if to_source(c.expr) in refs else None
@@ -306,6 +761,25 @@ def check(run):
 
 def replay(run, doc):
     case = doc.get("case", {})
+    if "src" in case:
+        lib_classes(run)
+        c = {"cls": doc.get("signature", {}).get("class", "?"), "src": case["src"], "finite": True,
+             "script": case.get("ops") if doc.get("signature", {}).get("kind") in ("helper", "copy") else None, "track": case.get("track")}
+        out = run_lib(run, [c], shards=1)[0]
+        bad, notes = lib_judge(c, out)
+        print("source:   ", case["src"])
+        print("next():   ", [pretty_obs(o) for o in out.get("ref", [])])
+        if "script" in out:
+            print("script:   ", [pretty_obs(o) for o in out["script"]])
+        if "track" in out:
+            print("track:    ", out["track"])
+        for sig, d in bad:
+            print("REPLAY-FAILS:", sig, d.get("expected"), "/", d.get("observed"))
+        if bad:
+            print("VIOLATION property=C09 replay=(replayed)")
+            return 1
+        print("replay: the property holds on this case", notes)
+        return 0
     if "expr_json" not in case:
         print("replay: no concrete case recorded (%s)" % doc.get("broken", "?"))
         return 1
